@@ -313,6 +313,19 @@ impl QueryLoader {
             loader.load_table(t).unwrap();
         }
 
+        #[cfg(prql_verif)]
+        crate::debug::verif::emit("load", || {
+            // the table declarations as loaded: id, name, whether it is a table of the database
+            let mut decls: Vec<_> = (loader.context.table_decls.values())
+                .map(|d| {
+                    let name = d.name.as_ref().map(|n| n.to_string());
+                    (d.id, name, matches!(d.relation, RelationStatus::Defined))
+                })
+                .collect();
+            decls.sort_by_key(|d| d.0.get());
+            serde_json::json!({ "decls": decls }).to_string()
+        });
+
         // a table of the database keeps its name: a relation of the query with the same name
         // (e.g. a declaration in a module) is the one that will get a generated name
         let extern_names: HashSet<Ident> = (loader.context.table_decls.values())
